@@ -19,7 +19,7 @@ Reg(t) == CASE t = "op" -> OpReg [] t = "delim" -> DelimReg [] t = "vtag" -> Val
 StatusOK(e) ==
   /\ IF e.code \in DOMAIN StatusReg
      THEN ~e.unknown /\ e.disc = e.code /\ Means(StatusReg, e.code, e.sym)
-     ELSE e.unknown \/ e.disc = e.code
+     ELSE e.unknown \/ (e.disc = e.code /\ NotOthersName(StatusAll, e.code, e.sym))
   /\ (e.success => e.code \in SuccessClass)
   /\ (e.code \in RFC8011Success => e.success)
   /\ (e.unknown => ~e.success)
@@ -28,7 +28,8 @@ StatusOK(e) ==
 (* (values outside the transcribed tables - later registrations - can only be checked for
    converting back to their own number) *)
 EnumOK(e) == IF e.defined
-             THEN e.disc = e.code /\ (e.code \in DOMAIN Reg(e.table) => Means(Reg(e.table), e.code, e.sym))
+             THEN /\ e.disc = e.code /\ (e.code \in DOMAIN Reg(e.table) => Means(Reg(e.table), e.code, e.sym))
+                  /\ NotOthersName(IF e.table = "status" THEN StatusAll ELSE Reg(e.table), e.code, e.sym)
              ELSE TRUE
 (* every value the properties rely on must be recognised *)
 Required(t) == CASE t = "delim" -> {1, 2, 3, 4, 5}
